@@ -9,6 +9,15 @@ import ops
 from wire import enode, enodes, es, eb, Toks, p_node, p_list
 
 PID = "C07"
+MANIFEST = dict(
+    text="Lean theorems C07_tag/C07_kids/C07_list/C07_insert_remove: for every tree, indent and eol the model renderer's "
+         "output is invariant under deleting (hence inserting) metadata nodes at any positions; model tied to /repo by "
+         "exhaustive small-scope + random differential runs of get_html_string, and the statement itself is evaluated on the "
+         "real code (impl(t) == impl(stripMeta t), stripMeta being the Lean definition).",
+    design="DESIGN.md §6 C07",
+    note="Modelled, not verified: Python isinstance dispatch order in the child loop.",
+    technique="Lean 4 proof by mutual structural induction over the tag tree + differential correspondence check",
+)
 PROP_FILES = ["HtmlVerif/Props/C07.lean"]
 EOLS = ["\n", "", "<!>"]
 
